@@ -297,10 +297,29 @@ def load_known(prop):
     return out
 
 
-def correspondence(rep, rows, component, nontrivial, opts=None, known=None):
-    """diff impl vs model on every row; disagreement on a property observable = failing input"""
+def correspondence(rep, rows, component, nontrivial, opts=None, known=None, oracle=None):
+    """diff impl vs model on every row; disagreement on a property observable = failing input.
+    `oracle(case, impl)` is an independent ground-truth check on the implementation's outcome."""
     bad = 0
+    obad = 0
     for case, impl, model in rows:
+        if oracle:
+            problems = oracle(case, impl)
+            rep.count(f"{component}:oracle-checked")
+            if problems:
+                k = None
+                for e in (known or []):
+                    if e.get("status") == "open" and known_matches(e, case, impl, model):
+                        k = e
+                        break
+                if k:
+                    rep.count(f"{component}:known:{k['id']}")
+                else:
+                    obad += 1
+                    if obad <= 3:
+                        rep.violation({"property": rep.prop, "component": component,
+                                       "what": "implementation contradicts the constructed ground truth (direct oracle on the implementation)",
+                                       "case": case, "impl": impl, "problems": problems})
         rep.evaluations += 1
         rep.traces += 1
         diffs = compare_outcome(impl, model, opts)
@@ -327,7 +346,9 @@ def correspondence(rep, rows, component, nontrivial, opts=None, known=None):
                                "differences": [{"field": f, "impl": a, "model_and_spec": b} for f, a, b in diffs]})
     if bad > 3:
         print(f"  ({bad} disagreeing cases in {component}; first 3 written as replays)")
-    return bad
+    if obad > 3:
+        print(f"  ({obad} ground-truth failures in {component}; first 3 written as replays)")
+    return bad + obad
 
 
 def outcome_key(impl):
